@@ -219,3 +219,7 @@ def run(ctx, res):
                               {'grammar_text_parser': json.loads(descr), 'expected_accept': exp, 'accepted': got})
             elif not ok:
                 res.violation('x%s (%s, %s): children are not the matched occurrences in order' % (op, kind, parser), {'grammar_text_parser': json.loads(descr)})
+
+    # ---- EBNF level, repetition-heavy (bounds around REPEAT_BREAK_THRESHOLD, repeated groups with alternatives): lark's compilation vs explicit expansion
+    import ebnflib
+    ebnflib.check(ctx, res, 99, 250, 5000, big=True, label='repetition-heavy EBNF')
